@@ -1488,6 +1488,8 @@ func main() {
 	chk.Assume("'documented kinds' is decided on the error chain: an error whose Unwrap chain contains a NotFound/Checksum/Format exception is accepted (image-level readers only)")
 	chk.Assume("QRCodeMultiReader: the outcome is a list (possibly empty) or an error; an empty list returned together with an error counts as the error outcome")
 	chk.Assume("pixel rows have length >= 1 as the property states; hints are well typed")
+	chk.Assume("'any input whatsoever' includes an image delivered by a LuminanceSource (an interface the application implements) whose GetRow / Crop / Rotate calls report errors: the readers must still return a result or an error and not panic; the KIND of the error is not judged then (it is the source's)")
+	chk.Assume("NEED_RESULT_POINT_CALLBACK 'maps to a ResultPointCallback': a typed callback, a nil callback, untyped nil and a func(ResultPoint) literal are taken as well-typed values")
 	if chk.ReplayFile() != "" {
 		replay()
 		chk.Finish()
@@ -1504,6 +1506,7 @@ func main() {
 	runRSS14()
 	runRSS14Distorted()
 	runMultiSymbol()
+	runSourceFaults()
 	chk.Finish()
 }
 
